@@ -6,10 +6,14 @@ class C33(Spec):
     drv = "drv_c33"
     harness = "h_c33"
     required_theorems = ("C33.node_survives", "C33.tick_total", "C33.recovered_paths", "C33.recvLt_wellformed_total",
-                         "C33.dlReply_total", "C33.dlReply_checks_height", "C33.dlOld_panic_iff", "C33.reqTick_total",
-                         "C33.no_lock_left_behind", "C33.loops_stay_alive", "C33.explicit_unlock_would_wedge",
+                         "C33.dlReply_total", "C33.dlReply_checks_height", "C33.dlOld_panic_iff", "C33.dlNew_panic_iff",
+                         "C33.reqTick_total", "C33.short_mempool_reply_panics", "C33.reqTick_empty_answer_panics",
+                         "C33.no_lock_left_behind", "C33.loops_stay_alive", "C33.denied_loop_never_blocked_by_peer",
                          "C33.old_pend_tick_panicked", "C33.old_denied_tick_panicked", "C33.witnesses_survive")
-    partial = ()
+    # node_survives is proved over `Reach`, whose environment steps carry two assumptions about LOCAL modules (not peers):
+    # the mempool answers one entry per requested short hash, the blockchain never answers GetBlocks with an empty success;
+    # both are necessary (short_mempool_reply_panics, reqTick_empty_answer_panics) and replayed on the real code
+    partial = ("C33.node_survives", "C33.tick_total", "C33.reqTick_total")
     refuted = ()
     level_text = ("Lean model of the index and nil logic of every dht receive path as total functions with an explicit panic "
                   "outcome (light block receive + buildPendBlock incl. group expansion, the tick bodies of pendBlockLoop / "
@@ -31,7 +35,18 @@ class C33(Spec):
                   "that does not return is the predicate failure stuck-after-peer-input, with the inputs so far), and after "
                   "malformed inputs every loop is stepped and a well-formed light block must be processed (liveness probe); both former crash inputs are also run in a child process with the "
                   "production goroutines, which must survive.")
-    level_note = ("partial: libp2p / gossipsub / protobuf / snappy internals and memory exhaustion (txCount between 2^16 and "
+    level_note = ("Inputs of node_survives: light blocks, pendBlockLoop / blockRequestLoop / manageDeniedPeer ticks, block request / "
+                  "response peer messages, full blocks, download requests (old/new) and replies, version / peer-info requests, "
+                  "peer-info and version REPLIES (a peer's header/height announcement), and the three topic validators. Covered "
+                  "by the tie only (no Lean content): the validators and the snappy/protobuf decode in handleSubMsg contain no "
+                  "index or nil operation on peer data, so their model functions are total by construction — crash-freedom "
+                  "there rests on the byte-level fuzz under the watchdog; block.Hash(cfg) on a decoded block likewise. "
+                  "Transactions / batches reach the mempool through validateTx/validateBatchTx only (handleSubMsg drops the tx "
+                  "topics before handleBroadcastReceive), so postMempool is not peer-reachable. State proofs (mavl tree.go) are "
+                  "property C03's subject and not modelled here. 'Permanently stop a background loop' = no lock left behind "
+                  "(loops_stay_alive) + each tick returns (node_survives) + manageDeniedPeer's timer-less Wait is never left "
+                  "without a verdict by peer input (denied_loop_never_blocked_by_peer: the blockchain module replies on every "
+                  "path); the recovered/lock tables are definitional, their content is the go/ast tie. partial: libp2p / gossipsub / protobuf / snappy internals and memory exhaustion (txCount between 2^16 and "
                   "2^45 really allocates) are not modelled; the local mempool and blockchain modules are scripted (one reply "
                   "entry per requested hash; GetBlocks error or n items); the block filter is modelled unbounded (real LRU "
                   "of 1024, runs are shorter).")
